@@ -3,6 +3,9 @@
 package gtab
 
 import (
+	"seehuhn.de/go/sfnt/opentype/anchor"
+	"seehuhn.de/go/sfnt/opentype/markarray"
+
 	"seehuhn.de/go/postscript/funit"
 	"seehuhn.de/go/sfnt/glyph"
 	"seehuhn.de/go/sfnt/opentype/classdef"
@@ -257,4 +260,42 @@ func VerifH_C06_chained() {
 	}
 	seq := verifSeq(2+verifChoose("len", verifParam("maxlen", 2)), 4)
 	checkShape(ll, gd, []LookupIndex{0}, seq, "chained context")
+}
+
+// VerifH_C06_markbase: mark-to-base attachment (GPOS 4.1) with symbolic anchors and advances, all lookup flag /
+// GDEF combinations, and a solver-chosen glyph between the base and the mark (a mark, an ignored ligature, ...).
+func VerifH_C06_markbase() {
+	meta := verifFlags()
+	meta.LookupType = 4
+	gd := verifGdef() // glyphs 1..3 base, 10..12 ligatures, glyph 4: symbolic class
+	gd.GlyphClass[5] = 3
+	an := func(tag string) anchor.Table {
+		return anchor.Table{X: funit.Int16(verifI16(tag + "x")), Y: funit.Int16(verifI16(tag + "y"))}
+	}
+	st := &Gpos4_1{MarkCov: coverage.Table{5: 0}, BaseCov: coverage.Table{1: 0},
+		MarkArray: []markarray.Record{{Class: verifU16("class"), Table: an("m")}},
+		BaseArray: [][]anchor.Table{{an("b0"), an("b1")}}}
+	verifAssume(st.MarkArray[0].Class <= 2)
+	ll := LookupList{{Meta: meta, Subtables: []Subtable{st}}}
+	// base, then nothing / glyph 4 (symbolic class) / ligature 10, then the mark; advances symbolic
+	var gids []glyph.ID
+	switch verifChoose("between", 3) {
+	case 0:
+		gids = []glyph.ID{1, 5}
+	case 1:
+		gids = []glyph.ID{1, 4, 5}
+	default:
+		gids = []glyph.ID{1, 10, 5}
+	}
+	var seq []glyph.Info
+	for i, g := range gids {
+		adv := verifI16("adv")
+		verifAssume(adv >= 0 && adv <= 1000)
+		seq = append(seq, glyph.Info{GID: g, Text: []rune{rune('a' + i)}, Advance: funit.Int16(adv)})
+	}
+	refUndefined = false
+	want := refShape(ll, gd, []LookupIndex{0}, seq)
+	got := NewContext(ll, gd, []LookupIndex{0}).Apply(refCopy(seq))
+	verifReach("applied")
+	verifAssert(refUndefined || sameSeq(got, want), "mark-to-base: result equals the reference implementation of the OpenType rules")
 }
